@@ -28,6 +28,11 @@ _prf_lock = threading.Lock()
 
 
 # ---------------------------------------------------------------- encodings
+def zlib_crc(text):
+    import zlib
+    return zlib.crc32(text.encode())
+
+
 def hx(b):
     b = bytes(b)
     return b.hex() if b else "-"
@@ -406,6 +411,11 @@ def _run(tok):
         param, index = int(a[2]), int(a[3])
         with _Prf(a[4]):
             return sx(_bip85_call(b, a[1], param, index))
+    if op == "bip85x":
+        # parameters / indexes that are NOT plain ints: i:<int>  f:<float>  d:<Decimal>  q:<a/b Fraction>  s:<hex of text>  b:<0|1>
+        nd = unnode(a[0])
+        b = bip85.BIP85DeterministicEntropy(master_node=nd)
+        return sx(_bip85_call(b, a[1], pyvalue(a[2]), pyvalue(a[3])))
     # wallet level
     if op == "generate":
         w = make_wallet(a[0])
@@ -549,6 +559,12 @@ def _run(tok):
         tmp = tempfile.mkdtemp(prefix="verif_exp_")
         try:
             path = os.path.join(tmp, "out.json")
+            if zlib_crc(a[1] + a[2]) % 2:
+                # the API (unlike the CLI) may be pointed at a path that already holds an older, LONGER export: what is
+                # read back must be exactly the new report, with nothing of the old content left behind it
+                w.export_wallet(file_path=path, indent=4, data=w.generate(account=0, interval=(0, 3)))
+                with open(path, "a") as f:
+                    f.write(" " * 4096 + "OLD-CONTENT-TAIL")
             w.export_wallet(file_path=path, indent=ind, data=data)
             with open(path, newline="") as f:
                 return sx(f.read())
@@ -599,8 +615,12 @@ def cli_run(fs, osbytes, argv, keep=None):
         real = [path if t == "@F" else t for t in argv]
         out, err = io.StringIO(), io.StringIO()
         saved_argv = sys.argv
+        saved_cwd = os.getcwd()
         sys.argv = ["btc_hd_wallet"] + real
         status = 0
+        # the program runs with the scratch directory as working directory: anything it writes relative to the current
+        # directory (a default file name, a temporary file) lands where it is seen and compared
+        os.chdir(sib_dir if os.path.isdir(sib_dir) else tmp)
         try:
             with contextlib.redirect_stdout(out), contextlib.redirect_stderr(err), _Urandom(osbytes):
                 try:
@@ -611,6 +631,7 @@ def cli_run(fs, osbytes, argv, keep=None):
                     status = 1
         finally:
             sys.argv = saved_argv
+            os.chdir(saved_cwd)
         stdout = out.getvalue()
         for nm, content in siblings.items():
             sp = os.path.join(sib_dir, nm)
@@ -738,6 +759,27 @@ def _bip85_call(b, app, param, index):
     if app == "pwd":
         return b.pwd(pwd_len=param, index=index)
     raise KeyError(app)
+
+
+def pyvalue(tok):
+    """a Python value of a chosen type from a protocol token (see op bip85x)"""
+    from decimal import Decimal
+    from fractions import Fraction
+    k, v = tok.split(":", 1)
+    if k == "i":
+        return int(v)
+    if k == "f":
+        return float(v)
+    if k == "d":
+        return Decimal(v)
+    if k == "q":
+        n_, d_ = v.split("/")
+        return Fraction(int(n_), int(d_))
+    if k == "s":
+        return unstr(v)
+    if k == "b":
+        return v == "1"
+    raise BadOp()
 
 
 class BadOp(Exception):
